@@ -11,6 +11,10 @@ E1 only (exploration).  Sub-checks (names usable with --only):
              every order: Basis, class on S<=7/8 through pattern profiles, Av identity, and the
              text forms (0-based, 1-based, mixed; separators; wrappers) through
              Basis.from_string / Av.from_string.
+  holes      large regions: {p, q} in both orders, q over a pattern of length 5 with a
+             point-free rectangle of >= 3 x 3 boxes shaded fully / minus a box / a row / a
+             column, p a small pattern whose single shaded cell can map onto such a region;
+             minimal elements by the definitional region test, same class on S<=5 (thorough 6)
   minimal    minimality only, on larger classical collections: every set of <= 4 patterns of
              S1..S4 (thorough also 5), sets with one pattern of S5 next to <= 2 (thorough 3)
              shorter ones, chains over three lengths {a, c in S5, one-point extension of c}
@@ -585,6 +589,69 @@ def shard_longtext(shard):
                         continue        # 1-based text needs the digit 10
                     check_text(part, order, ref_min, text, desc, None)
                     part.add(1, 1 if (q is not None and len(ref_min) == 1) else 0)
+    return part
+
+
+# --------------------------------------------------------------------------------------------
+# holes: a long pattern with a large region next to a small pattern
+# --------------------------------------------------------------------------------------------
+
+def holes_underlying(quick):
+    return F.symmetry_representatives(5) if quick else R.perms(5)
+
+
+def check_holes_pair(part, pspec, qspec, H, hn, first_seen):
+    """{p, q} in both orders: MeshBasis, Av(...).basis; minimal elements by the definitional
+    containment; same class on S<=hn."""
+    L = lib()
+    specs = [pspec, qspec]
+    case = {"specs": specs, "route": "holes", "hn": hn}
+    sems = [F.sem(s) for s in specs]
+    ref_min = minimal(frozenset(sems))
+    try:
+        objs = [build(s) for s in specs]
+        b1 = L.MeshBasis(*objs)
+        b2 = L.MeshBasis(*objs[::-1])
+        got = [readback(e) for e in b1]
+        if len(got) != len(set(got)) or set(got) != set(ref_min):
+            part.violation("seq:minimal", case, {"expected": showset(ref_min),
+                                                 "got": [show(e) for e in got]})
+            return
+        if not _same(b1, b2):
+            part.violation("seq:order", dict(case, order=[1, 0]),
+                           {"first_order": repr(b1), "this_order": repr(b2)})
+            return
+        if H.class_mask(set(got)) != H.class_mask(set(sems)):
+            part.violation("seq:class", case, {"got": [show(e) for e in got], "horizon": hn})
+            return
+        av = L.Av(list(objs))
+        av2 = L.Av(tuple(objs[::-1]))
+        if av is not av2 or not _same(av.basis, b1) or type(av.basis) is not L.MeshBasis:
+            part.violation("seq:av", case, {"basis": repr(av.basis), "built": repr(b1)})
+    except Exception as exc:  # noqa
+        part.violation("seq:exception", case, {"exception": repr(exc)})
+
+
+def shard_holes(shard):
+    quick, hn, lo, hi = shard
+    part = Partial()
+    H = horizon(hn)
+    smalls = F.holes_small_patterns(not quick)
+    fresh_class_cache()
+    for qp in holes_underlying(quick)[lo:hi]:
+        for sh in F.holes_of(qp, 3):
+            qspec = ["mesh", list(qp), F.cells_list(sh)]
+            qsem = F.sem(qspec)
+            for pspec in smalls:
+                check_holes_pair(part, pspec, qspec, H, hn, None)
+                pruned = len(minimal(frozenset([F.sem(pspec), qsem]))) == 1
+                part.add(2, 1 if pruned else 0)
+                part.bump("holes_pairs")
+                if pruned:
+                    part.bump("holes_pairs_where_q_contains_p")
+            H._mask.pop(qsem, None)
+            _MIN.clear()
+        fresh_class_cache()
     return part
 
 
@@ -1370,6 +1437,23 @@ def run(ctx, only=None):
                                            "numberings for size 3" % (len(F.SEPARATORS),
                                                                       len(F.WRAPS))}
         ctx.section("classical", sets=len(psets), evaluations=ctx.evals - e0)
+    if want("holes"):
+        e0 = ctx.evals
+        hhn = 5 if quick else 6
+        horizon(hhn)
+        und = holes_underlying(quick)
+        ctx.pmap(shard_holes, [(quick, hhn, i, i + 1) for i in range(len(und))])
+        ctx.bounds["holes"] = {
+            "q": "underlying patterns of length 5 (%s: %d); every point-free rectangle of boxes "
+                 "with both sides >= 3, shaded completely / minus one box (each box in turn) / "
+                 "minus one column / minus one row" % (
+                     "quick: least member of each symmetry orbit" if quick else "all", len(und)),
+            "p": "every shading (>= 1 cell) of the one-point pattern and the shaded pattern of "
+                 "length 0" + ("" if quick else "; the one-cell shadings of length 2"),
+            "collections": "{p, q} in both orders", "class_horizon": hhn}
+        ctx.section("holes", pairs=ctx.counters.get("holes_pairs", 0),
+                    q_contains_p=ctx.counters.get("holes_pairs_where_q_contains_p", 0),
+                    evaluations=ctx.evals - e0)
     if want("minimal"):
         fams = ["small", "one-long", "chain"] if quick else \
             ["small", "five", "one-long", "one-long3", "chain", "two-long"]
